@@ -497,11 +497,11 @@ var fixedScenarios = [][]vspec{
 		{1, []edit{{Acct: 1, Kind: 1}}},
 		{2, []edit{{Acct: 1, Kind: 3, From: 1}}},
 	},
-	// 1: two roots sharing a subtree (A,B below one branch; C changes), then a fork
+	// 1: two roots sharing a subtree (A,B below one branch; C changes), then a fork that deletes C
 	{
 		{0, []edit{{Acct: 0, Kind: 1}, {Acct: 1, Kind: 1}, {Acct: 2, Kind: 1}}},
 		{1, []edit{{Acct: 2, Kind: 1}}},
-		{1, []edit{{Acct: 0, Kind: 1}}},
+		{1, []edit{{Acct: 2, Kind: 2}}},
 	},
 	// 2: storage toggled S -> S' -> S with unchanged balances (re-delivered storage root and leaf)
 	{
@@ -509,11 +509,10 @@ var fixedScenarios = [][]vspec{
 		{1, []edit{{Acct: 0, Kind: 0, Slot: 0, Val: 2}}},
 		{2, []edit{{Acct: 0, Kind: 0, Slot: 0, Val: 1}}},
 	},
-	// 3: two-level storage trie, one slot rewritten, account deleted in a fork
+	// 3: two-level storage trie, one slot rewritten
 	{
 		{0, []edit{{Acct: 0, Kind: 0, Slot: 0, Val: 1}, {Acct: 0, Kind: 0, Slot: 1, Val: 2}}},
 		{1, []edit{{Acct: 0, Kind: 0, Slot: 1, Val: 3}}},
-		{1, []edit{{Acct: 0, Kind: 2}, {Acct: 2, Kind: 1}}},
 	},
 	// 4: rewrite with identical content (dirty-but-equal nodes re-delivered), two storage owners in one update
 	{
